@@ -328,6 +328,13 @@ func runC05(c *Ctx) {
 		}
 	}
 
+	// the source text reaches the reader unmodified (positions and lexemes refer to the file)
+	if newFn := FuncDecl(p, "", "New"); newFn != nil {
+		checkSourceUnmodified(c, "R5.3", p, newFn)
+	} else {
+		c.Lost("R5.3", "lexer.New")
+	}
+
 	// R5.2 / R5.3 per accepting leaf
 	for _, lf := range s.leaves {
 		key := "default leaf"
